@@ -280,7 +280,7 @@ fn c16_strings(cfg: &Cfg) -> Sink {
 }
 pub fn c16(cfg: &Cfg) -> i32 {
     let mut sink = c16_strings(cfg);
-    let mut rep = report("strings_judged", "W10: the value spaces completely (263 actions, 64 squares with all conversions, 6 pieces, 4 directions, 20k bitboards for map_bit_board_to_squares); every string of length 0..4 over a 45-symbol hostile alphabet (4 193 821 strings; includes characters equal to valid symbols modulo 256) and every printable-ASCII string of length 0..3 (866 496), each fed to the Action, Square, Piece and Direction parsers and compared with a reference grammar; random longer strings and one-edit near-misses of valid actions. Run in the monitor profile and again in a plain release child. distinct_nontrivial = distinct random/near-miss strings (the exhaustive part is distinct by construction and reported separately).", vec![floor("strings_judged", 5_000_000, 5_000_000), floor("exhaustive_hostile_alphabet_len_le_4", 4_193_821, 4_193_821), floor("exhaustive_printable_ascii_len_le_3", 866_496, 866_496), floor("values_judged", 337, 337), floor("action_accepted", 300, 300), floor("random_strings", 500_000, 50_000_000)], &["the reference grammar in model.rs (parse_*_ref) is the statement of the notation"]);
+    let mut rep = report("strings_judged", "W10: the value spaces completely (263 actions, 64 squares with all conversions, 6 pieces, 4 directions, 20k bitboards for map_bit_board_to_squares); every string of length 0..4 over a 45-symbol hostile alphabet (4 193 821 strings; includes characters equal to valid symbols modulo 256) and every printable-ASCII string of length 0..3 (866 496), each fed to the Action, Square, Piece and Direction parsers and compared with a reference grammar; every Unicode scalar value in every single position of 1-3 character notation strings (8 forms x 1 112 064 scalars); random longer strings, one-edit near-misses of valid actions and valid text with hostile tails. Run in the monitor profile and again in a plain release child. distinct_nontrivial = distinct random/near-miss strings (the exhaustive part is distinct by construction and reported separately).", vec![floor("strings_judged", 13_000_000, 13_000_000), floor("exhaustive_hostile_alphabet_len_le_4", 4_193_821, 4_193_821), floor("exhaustive_printable_ascii_len_le_3", 866_496, 866_496), floor("values_judged", 337, 337), floor("unicode_position_sweep_strings", 8_896_512, 8_896_512), floor("action_accepted", 300, 300), floor("random_strings", 500_000, 50_000_000)], &["the reference grammar in model.rs (parse_*_ref) is the statement of the notation"]);
     rep.exhaustive = Some(false);
     rep.extra.insert("exhaustive_parts".into(), json!("all strings of length <= 4 over the 45-symbol alphabet; all printable-ASCII strings of length <= 3; all 263 + 64 + 6 + 4 values"));
     match run_plain_child(cfg, "C16-strings") {
@@ -402,6 +402,76 @@ fn c17_base(b: &MBoard, gold: bool, step: u8, pend: Pend, base_name: &str, sink:
     }
     sink.count("bases");
 }
+/// C17 on states reached by play: the hash the engine carries for a reached state (maintained
+/// incrementally) must differ from the from-scratch hash of every state that differs from it in the
+/// content of one square touched by the last step (source, destination, the four traps), in the
+/// side, in the step or in the status. A piece that was captured but not hashed out makes "trap
+/// empty" collide with "piece still on the trap".
+#[derive(Default)]
+struct C17Play {
+    transitions: u64,
+    variants: u64,
+    after_capture: u64,
+}
+impl Monitor for C17Play {
+    fn on_transition(&mut self, t: &Trans, s: &mut Sink) {
+        if !is_step(t.code) {
+            return;
+        }
+        self.transitions += 1;
+        let r = guard("hash of reached state", || (t.after.transposition_hash(), t.after.unwrap_play_phase().push_pull_state()));
+        let (h, status) = match r {
+            Ok(x) => x,
+            Err(_) => return,
+        };
+        let b = t.obs_board;
+        let (gold, step) = (t.obs_gold, t.obs_step);
+        let scratch = |bb: &MBoard, g: bool, st: u8, ps: PushPullState| guard("from scratch", || Zobrist::from_piece_board(piece_board_of(bb).piece_board(), g, st as usize).board_state_hash_with_push_pull_state(ps));
+        let captured = t.applied.map_or(false, |a| !a.captured.is_empty());
+        if captured {
+            self.after_capture += 1;
+        }
+        let mut squares: Vec<usize> = vec![code_sq(t.code)];
+        if let Some(to) = nb(code_sq(t.code), code_dir(t.code)) {
+            squares.push(to);
+        }
+        squares.extend(TRAPS.iter());
+        for sq in squares {
+            for c in 0..13u8 {
+                if c == b.0[sq] {
+                    continue;
+                }
+                let mut v = b;
+                v.0[sq] = c;
+                self.variants += 1;
+                if let Ok(hv) = scratch(&v, gold, step, status) {
+                    if hv == h {
+                        s.violate_game("C17", "reached_state_hash_equals_one_square_variant", t.rec, format!("after {} the engine's hash {:#018x} equals the from-scratch hash of the same state with {}={} (actual content {}) board={}", code_text(t.code), h, sq_text(sq), if c == 0 { '.' } else { cell_char(c) }, if b.0[sq] == 0 { '.' } else { cell_char(b.0[sq]) }, b.compact()));
+                    }
+                }
+            }
+        }
+        self.variants += 5;
+        if scratch(&b, !gold, step, status).ok() == Some(h) {
+            s.violate_game("C17", "reached_state_hash_equals_other_side", t.rec, format!("board={}", b.compact()));
+        }
+        for k in 0..4u8 {
+            if k != step && scratch(&b, gold, k, status).ok() == Some(h) {
+                s.violate_game("C17", "reached_state_hash_equals_other_step", t.rec, format!("step {} vs {} board={}", step, k, b.compact()));
+            }
+        }
+        if status != PushPullState::None && scratch(&b, gold, step, PushPullState::None).ok() == Some(h) {
+            s.violate_game("C17", "reached_state_hash_equals_no_status", t.rec, format!("status {:?} board={}", status, b.compact()));
+        }
+    }
+    fn finish(&mut self, s: &mut Sink) {
+        s.add("reached_states_checked_against_local_variants", self.transitions);
+        s.add("reached_state_variants_compared", self.variants);
+        s.add("pairs_compared", self.variants);
+        s.add("reached_states_right_after_a_capture", self.after_capture);
+    }
+}
+
 pub fn c17(cfg: &Cfg) -> i32 {
     let nb = cfg.n(30, 12_000);
     let sink = run_parallel(cfg, |w, sink| {
@@ -421,7 +491,12 @@ pub fn c17(cfg: &Cfg) -> i32 {
             k += cfg.workers as u64;
         }
     });
-    let mut rep = report("pairs_compared", "W11: for each base state (empty board, opening array, random legal positions with random side / step / status) the finite space of one-feature changes is enumerated completely: all 13 contents of each of the 64 squares and each of the 12 piece kinds on every square empty in the base (in the base's own context and in a random side/step/status context per family), and side, step and status each varied in every combination of the other two (2 564 + 1 282 + 8 families per base); states are built with GameState::new / PlayPhase::new and all hashes within a family must be pairwise distinct. distinct_nontrivial = distinct hash values seen.", vec![floor("bases", 30, 8000), floor("pairs_status", 8 * 205_120 * 30, 8 * 205_120 * 8000), floor("pairs_square_content", 2 * 64 * 78 * 30, 2 * 64 * 78 * 8000), floor("pairs_step", 6 * 1282 * 30, 6 * 1282 * 8000), floor("pairs_side", 2564 * 30, 2564 * 8000)], &["states are built with the public constructors, as the property says"]);
+    let mut sink = sink;
+    {
+        let mix = Mix { w1: (60, 2000), w2: (120, 4000), w3: (20, 500), w7: (5, 100), ..Mix::default() };
+        sink.merge(run_mix(cfg, &mix, &|| Box::new(C17Play::default())));
+    }
+    let mut rep = report("pairs_compared", "W11: for each base state (empty board, opening array, random legal positions with random side / step / status) the finite space of one-feature changes is enumerated completely: all 13 contents of each of the 64 squares and each of the 12 piece kinds on every square empty in the base (in the base's own context and in a random side/step/status context per family), and side, step and status each varied in every combination of the other two (2 564 + 1 282 + 8 families per base); states are built with GameState::new / PlayPhase::new and all hashes within a family must be pairwise distinct. Second part, on states reached by play (W1/W2/W3/W7 games): the hash the engine carries after every step must differ from the from-scratch hash of every variant that differs in the content of the source, destination or a trap square, in the side, the step or the status (a captured piece left in the hash would make 'trap empty' collide with 'piece still there'). distinct_nontrivial = distinct hash values seen.", vec![floor("bases", 30, 8000), floor("pairs_status", 8 * 205_120 * 30, 8 * 205_120 * 8000), floor("pairs_square_content", 2 * 64 * 78 * 30, 2 * 64 * 78 * 8000), floor("pairs_step", 6 * 1282 * 30, 6 * 1282 * 8000), floor("pairs_side", 2564 * 30, 2564 * 8000), floor("reached_states_checked_against_local_variants", 200_000, 5_000_000), floor("reached_states_right_after_a_capture", 5000, 100_000)], &["states are built with the public constructors, as the property says"]);
     rep.exhaustive = Some(true);
     rep.extra.insert("exhaustive_scope".into(), json!("per base state, the space of one-feature changes named in the property is enumerated completely; the bases themselves are sampled"));
     conclude(cfg, sink, rep)
